@@ -1,4 +1,200 @@
+/-
+C15 — property theorems (statements fixed by the architect; do not weaken).
+`Gen.Merge.mergeText/mergeLogits` are GENERATED from the Python source on every run; the lemmas
+`mergeText_eq` / `mergeLogits_eq` are the proof obligations that an edit of the source can break —
+everything else should be derived from them (do not unfold Gen.Merge.* anywhere else).
+Helper lemmas go to PeroVerif/Lemmas/Merge.lean.
+-/
 import PeroVerif.Model.Merge
+import PeroVerif.Lemmas.Merge
+
 namespace C15
-theorem placeholder : (1:Nat) = 1 := rfl
+open Merge
+variable {α β : Type} [DecidableEq α]
+
+/-- Obligation on the generated slice expression: keep all but ⌈o/2⌉ symbols on the left, drop ⌊o/2⌋
+on the right. -/
+theorem mergeText_eq (r p : List α) (o : Nat) (h : o ≤ r.length) :
+    Gen.Merge.mergeText r p (o : Int) = r.take (r.length - (o + 1) / 2) ++ p.drop (o / 2) := by
+  simp only [Gen.Merge.mergeText]
+  rw [Py.slice_to_nat (n := r.length - (o + 1) / 2), Py.slice_from_nat (n := o / 2)]
+  all_goals (simp only [Py.len, Py.floorDiv_two]; omega)
+
+theorem mergeLogits_eq (r p : List α) (lr lp : List β) (o : Nat) (h : o ≤ lr.length) :
+    Gen.Merge.mergeLogits r p lr lp (o : Int) = lr.take (lr.length - (o + 1) / 2) ++ lp.drop (o / 2) := by
+  simp only [Gen.Merge.mergeLogits]
+  rw [Py.slice_to_nat (n := lr.length - (o + 1) / 2), Py.slice_from_nat (n := o / 2)]
+  all_goals (simp only [Py.len, Py.floorDiv_two]; omega)
+
+/-- The detected overlap never exceeds either text. -/
+theorem findBestOverlap_le (a b : List α) : findBestOverlap a b ≤ min a.length b.length :=
+  findBestOverlap_le_min a b
+
+theorem findBestOverlap_nil_right (a : List α) : findBestOverlap a [] = 0 := by
+  have := findBestOverlap_le a ([] : List α)
+  simp only [List.length_nil] at this
+  omega
+theorem findBestOverlap_nil_left (b : List α) : findBestOverlap ([] : List α) b = 0 := by
+  have := findBestOverlap_le ([] : List α) b
+  simp only [List.length_nil] at this
+  omega
+
+/-! Helper forms of `mergeStep`, derived from the two obligations above (no unfolding of `Gen.Merge.*`). -/
+
+theorem overlap_le_left (a b : List α) : findBestOverlap a b ≤ a.length :=
+  Nat.le_trans (findBestOverlap_le a b) (Nat.min_le_left ..)
+
+theorem overlap_le_right (a b : List α) : findBestOverlap a b ≤ b.length :=
+  Nat.le_trans (findBestOverlap_le a b) (Nat.min_le_right ..)
+
+theorem mergeStep_fst (acc p : List α × List β) :
+    (mergeStep acc p).1 = cut acc.1 p.1 (findBestOverlap acc.1 p.1) := by
+  simp only [mergeStep]
+  exact mergeText_eq _ _ _ (overlap_le_left ..)
+
+theorem mergeStep_snd (acc p : List α × List β) (h : findBestOverlap acc.1 p.1 ≤ acc.2.length) :
+    (mergeStep acc p).2 = cut acc.2 p.2 (findBestOverlap acc.1 p.1) := by
+  simp only [mergeStep]
+  exact mergeLogits_eq _ _ _ _ _ h
+
+theorem mergeAll_cons (p : List α × List β) (ps : List (List α × List β)) :
+    mergeAll (p :: ps) = some ((ps.map shrink).foldl mergeStep (shrink p)) := by
+  simp only [mergeAll, List.map_cons]
+
+theorem foldl_mergeStep_length (qs : List (List α × List β)) : ∀ (acc : List α × List β),
+    (qs.foldl mergeStep acc).1.length + (overlaps acc qs).sum
+      = acc.1.length + (qs.map (·.1.length)).sum := by
+  induction qs with
+  | nil => intro acc; simp [overlaps]
+  | cons q qs ih =>
+    intro acc
+    have h1 := ih (mergeStep acc q)
+    have h2 := cut_length acc.1 q.1 _ (overlap_le_left acc.1 q.1) (overlap_le_right acc.1 q.1)
+    rw [← mergeStep_fst] at h2
+    simp only [List.foldl_cons, overlaps, List.sum_cons, List.map_cons]
+    omega
+
+theorem foldl_mergeStep_rows (qs : List (List α × List β))
+    (hq : ∀ q ∈ qs, q.2.length = q.1.length) : ∀ (acc : List α × List β),
+    acc.2.length = acc.1.length → (qs.foldl mergeStep acc).2.length = (qs.foldl mergeStep acc).1.length := by
+  induction qs with
+  | nil => intro acc h; exact h
+  | cons q qs ih =>
+    intro acc h
+    rw [List.foldl_cons]
+    apply ih (fun q' hq' => hq q' (List.mem_cons_of_mem _ hq'))
+    have hl := overlap_le_left acc.1 q.1
+    have hq1 := hq q (List.mem_cons_self ..)
+    rw [mergeStep_fst, mergeStep_snd _ _ (by omega), cut_length' _ _ _ hl, cut_length' _ _ _ (by omega)]
+    omega
+
+theorem foldl_mergeStep_prefix (qs : List (List α × List β)) : ∀ (acc : List α × List β),
+    acc.1.take (acc.1.length - ((overlaps acc qs).map (fun o => (o + 1) / 2)).sum)
+      <+: (qs.foldl mergeStep acc).1 := by
+  induction qs with
+  | nil => intro acc; simp [overlaps]
+  | cons q qs ih =>
+    intro acc
+    simp only [List.foldl_cons, overlaps, List.map_cons, List.sum_cons]
+    refine List.IsPrefix.trans ?_ (ih (mergeStep acc q))
+    have hl := overlap_le_left acc.1 q.1
+    have hlen := cut_length' acc.1 q.1 _ hl
+    rw [← mergeStep_fst] at hlen
+    generalize ((overlaps (mergeStep acc q) qs).map (fun o => (o + 1) / 2)).sum = S at *
+    have htake := take_cut acc.1 q.1 (findBestOverlap acc.1 q.1)
+      (acc.1.length - ((findBestOverlap acc.1 q.1 + 1) / 2 + S)) (by omega)
+    rw [← mergeStep_fst] at htake
+    rw [← htake]
+    exact List.take_prefix_take_left (by omega)
+
+/-- Length law for one merge: |result| = |acc| + |part| − overlap. -/
+theorem mergeStep_length (acc p : List α × List β) :
+    (mergeStep acc p).1.length + findBestOverlap acc.1 p.1 = acc.1.length + p.1.length := by
+  rw [mergeStep_fst]
+  exact cut_length _ _ _ (overlap_le_left ..) (overlap_le_right ..)
+
+/-- One logits row per character is preserved by a merge. -/
+theorem mergeStep_rows (acc p : List α × List β) (ha : acc.2.length = acc.1.length)
+    (hp : p.2.length = p.1.length) :
+    (mergeStep acc p).2.length = (mergeStep acc p).1.length :=
+  foldl_mergeStep_rows [p] (by intro q hq; rw [List.mem_singleton.mp hq]; exact hp) acc ha
+
+/-- Parts that share no overlap (in particular empty parts) are concatenated unchanged. -/
+theorem no_overlap_concat (acc p : List α × List β) (h : findBestOverlap acc.1 p.1 = 0) :
+    mergeStep acc p = (acc.1 ++ p.1, acc.2 ++ p.2) := by
+  apply Prod.ext
+  · rw [mergeStep_fst, h, cut_zero]
+  · rw [mergeStep_snd _ _ (by omega), h, cut_zero]
+
+theorem empty_part_right (acc : List α × List β) (l : List β) :
+    mergeStep acc ([], l) = (acc.1, acc.2 ++ l) := by
+  rw [no_overlap_concat acc ([], l) (findBestOverlap_nil_right acc.1), List.append_nil]
+
+/-- n parts: the length is the sum of the part lengths minus the detected overlaps. -/
+theorem mergeAll_length (p : List α × List β) (ps : List (List α × List β)) :
+    ∃ r, mergeAll (p :: ps) = some r ∧
+      r.1.length + (overlaps (shrink p) (ps.map shrink)).sum = ((p :: ps).map (·.1.length)).sum := by
+  refine ⟨_, mergeAll_cons p ps, ?_⟩
+  rw [foldl_mergeStep_length]
+  simp only [shrink, List.map_cons, List.sum_cons, List.map_map, Function.comp_def]
+
+/-- n parts, logits with at least as many rows as characters: exactly one row per merged character. -/
+theorem mergeAll_rows (p : List α × List β) (ps : List (List α × List β))
+    (h : ∀ q ∈ p :: ps, q.1.length ≤ q.2.length) :
+    ∃ r, mergeAll (p :: ps) = some r ∧ r.2.length = r.1.length := by
+  have hs : ∀ q ∈ p :: ps, (shrink q).2.length = (shrink q).1.length := by
+    intro q hq
+    have := h q hq
+    simp only [shrink, List.length_take]
+    omega
+  refine ⟨_, mergeAll_cons p ps, ?_⟩
+  apply foldl_mergeStep_rows
+  · intro q hq
+    obtain ⟨q', hq', rfl⟩ := List.mem_map.mp hq
+    exact hs q' (List.mem_cons_of_mem _ hq')
+  · exact hs p (List.mem_cons_self ..)
+
+/-- The result ends with the last part, less the left half (rounded down) of its overlap. -/
+theorem mergeAll_suffix (p : List α × List β) (ps : List (List α × List β)) (last : List α × List β) :
+    ∃ r o, mergeAll (p :: (ps ++ [last])) = some r ∧ o ≤ last.1.length ∧
+      last.1.drop (o / 2) <:+ r.1 := by
+  refine ⟨_, findBestOverlap ((ps.map shrink).foldl mergeStep (shrink p)).1 last.1,
+    mergeAll_cons p (ps ++ [last]), overlap_le_right .., ?_⟩
+  rw [List.map_append, List.foldl_append, List.map_singleton, List.foldl_cons, List.foldl_nil,
+    mergeStep_fst]
+  exact List.suffix_append _ _
+
+/-- Two parts: the result begins with the first part less ⌈o/2⌉ symbols (at most half the overlap,
+rounded up), followed by the second part less its first ⌊o/2⌋ symbols. -/
+theorem merge_two (p q : List α × List β) :
+    ∃ r, mergeAll [p, q] = some r ∧
+      r.1 = p.1.take (p.1.length - (findBestOverlap p.1 q.1 + 1) / 2) ++ q.1.drop (findBestOverlap p.1 q.1 / 2) := by
+  refine ⟨_, mergeAll_cons p [q], ?_⟩
+  rw [List.map_singleton, List.foldl_cons, List.foldl_nil, mergeStep_fst]
+  rfl
+
+/-- n parts: the first part less the sum of the left cuts is a prefix of the result. -/
+theorem mergeAll_prefix (p : List α × List β) (ps : List (List α × List β)) :
+    ∃ r, mergeAll (p :: ps) = some r ∧
+      p.1.take (p.1.length - ((overlaps (shrink p) (ps.map shrink)).map (fun o => (o + 1) / 2)).sum) <+: r.1 := by
+  refine ⟨_, mergeAll_cons p ps, ?_⟩
+  exact foldl_mergeStep_prefix (ps.map shrink) (shrink p)
+
+/-- Window splitting: first window starts at 0, consecutive windows overlap by `mlw / 4`, each has
+width `mlw` (before clipping), and the last one reaches the end of the line. -/
+theorem windows_chain (width mlw : Nat) (h : 0 < mlw) :
+    (∃ rest, windows width mlw = (0, mlw) :: rest) ∧
+    List.IsChain (fun a b : Nat × Nat => b.1 + mlw / 4 = a.2 ∧ b.2 = b.1 + mlw ∧ a.2 < width) (windows width mlw) ∧
+    (∀ l ∈ (windows width mlw).getLast?, width ≤ l.2) := by
+  have hstep : 1 ≤ mlw - mlw / 4 := by omega
+  have hw : width ≤ mlw + width * (mlw - mlw / 4) :=
+    Nat.le_trans (Nat.le_mul_of_pos_right width hstep) (Nat.le_add_left ..)
+  exact windowsAux_spec width mlw h width 0 mlw (by omega) hw
+
+/-! Non-vacuity -/
+example : mergeAll [([1,2,3,4,5], [10,11,12,13,14]), ([4,5,6], [20,21,22])] = some ([1,2,3,4,5,6], [10,11,12,13,21,22]) := by decide
+example : mergeAll [([1,2,3], [10,11,12]), ([7,8,9], [20,21,22])] = some ([1,2,3,7,8,9], [10,11,12,20,21,22]) := by decide
+example : findBestOverlap [1,2,3,4,5] [4,5,6] = 2 := by decide
+example : windows 100 40 = [(0, 40), (30, 70), (60, 100)] := by decide
+
 end C15
